@@ -132,6 +132,19 @@ def task(W, payload):
             if not same(got, refd):
                 fail(out, "default parameters do not fill in omitted values (or override supplied ones)", "c09", payload, defaults=dflt, supplied=supplied, program=ops)
             if nontrivial: out["cases"].append(h + ":defaults")
+            # ... and on the SAME model: a run that supplies other values, then a run that omits them again, falls back to the defaults
+            other = {k: pf[k] * 1.5 + 0.125 for k in keys if r.random() < 0.6}
+            if other:
+                I4.model.run(parameters=dict(dflt, **other), solver="euler", jit=False)
+                omitted = {k: v for k, v in supplied.items() if k not in other or dflt[k] != pf[k]}
+                if all(dflt[k] == pf[k] or k in omitted for k in keys):
+                    I4.model.run(parameters=omitted, solver="euler", jit=False)
+                    got2 = {"outputs": np.asarray(I4.model.outputs).tolist(), "derived": {k: np.asarray(v).tolist() for k, v in I4.model.derived_outputs.items()}}
+                    out["evals"] += 1
+                    if not same(got2, refd):
+                        fail(out, "a parameter omitted from a run does not fall back to its default after an earlier run on the same model supplied another value",
+                             "c09", payload, defaults=dflt, earlier_run=other, this_run=omitted, program=ops)
+                    if nontrivial: out["cases"].append(h + ":defaults_after_override")
         except BaseException as e:
             fail(out, "run with default parameters failed", "c09", payload, err=str(e)[:200], program=ops)
     # (d') every reported input parameter is needed: omitting it makes a fresh run fail
